@@ -307,6 +307,23 @@ func genG19(repo string, w *Out) error {
 	}
 	w.DefBool("log_builders_fresh_per_line", fresh)
 
+	// bind/log.go httplogUpdate: a module named in --log-http is marked as set whenever it is named (not only when
+	// its value changes), so that an unnamed default of the same or a later occurrence never overrides it
+	blf, err := Parse(repo, "bind/log.go")
+	if err != nil {
+		return err
+	}
+	hu, err := blf.Func("httplogUpdate")
+	if err != nil {
+		return err
+	}
+	husrc := blf.Src(hu.Body)
+	if !strings.Contains(husrc, "if dst[i].Name == src[j].Name {") || !strings.Contains(husrc, "if !changed[i] { *dst[i].Param = defaultMode }") {
+		return fmt.Errorf("httplogUpdate: body is not a shape the model knows: %q", husrc)
+	}
+	w.DefBool("httplog_named_always_marks_changed",
+		strings.Contains(husrc, "if dst[i].Name == src[j].Name { *dst[i].Param = *src[j].Param changed[i] = true break }"))
+
 	// ---------------------------------------------------------------- describe.go and its users
 	df, err := Parse(repo, "utils/cobrautil/describe.go")
 	if err != nil {
